@@ -9,7 +9,7 @@
    only, sort options by the order-defined functions only, retain options by clean.py only. *)
 From mathcomp Require Import all_ssreflect all_algebra.
 From SsrMultinomials Require Import mpoly.
-From NP Require Import Base Poly Deriv Rearr Reduce Abs Expr OptIrrP GenOptRead BridgeOptRead MulTotal DerivTotal.
+From NP Require Import Base Poly Deriv Rearr Reduce Abs Expr OptIrrP GenOptRead BridgeOptRead MulTotal DerivTotal HessTotal.
 Set Implicit Arguments. Unset Strict Implicit. Unset Printing Implicit Defensive.
 Import GRing.Theory.
 Local Open Scope ring_scope.
@@ -55,6 +55,10 @@ Proof. exact: derivative_total. Qed.
 Theorem C15_gradient_never_fails o p (vs : seq 'I_n) :
   wfb p -> names p = [seq nat_of_ord v | v <- vs] -> exists r, gradient o p = Ok r.
 Proof. exact: gradient_total. Qed.
+
+Theorem C15_hessian_never_fails o p (vs : seq 'I_n) :
+  wfb p -> names p = [seq nat_of_ord v | v <- vs] -> exists r, hessian o p = Ok r.
+Proof. exact: hessian_total. Qed.
 
 Theorem C15_retain_only_layout rc1 rn1 rc2 rn2 ns sh rs (cs : seq (seq R)) q1 q2 :
   from_attributes rc1 rn1 ns sh rs cs = Ok q1 -> from_attributes rc2 rn2 ns sh rs cs = Ok q2 ->
@@ -115,6 +119,7 @@ Print Assumptions C15_power_never_fails.
 Print Assumptions C15_expression_success.
 Print Assumptions C15_derivative_never_fails.
 Print Assumptions C15_gradient_never_fails.
+Print Assumptions C15_hessian_never_fails.
 Print Assumptions C15_retain_only_layout.
 Print Assumptions C15_sort_flags_unread.
 Print Assumptions C15_sort_flags_unread_expression.
